@@ -786,6 +786,51 @@ fn dispatch_field(ty: &str, op: &str, aux: &[&str], operands: &[Vec<&str>]) -> V
     }
 }
 
+/// cylindrical Bessel functions (BesselDual: only Copy types over f64)
+fn bessel_ops<D>(op: &str, operands: &[Vec<&str>]) -> Vec<String>
+where
+    D: DualNum<f64> + Copy + Probe,
+{
+    let a: Vec<D> = operands.iter().map(|t| D::rd(&mut Toks { v: t, i: 0 })).collect();
+    let mut out = vec![];
+    match op {
+        "bessel_j0" => a[0].bessel_j0().wr(&mut out),
+        "bessel_j1" => a[0].bessel_j1().wr(&mut out),
+        "bessel_j2" => a[0].bessel_j2().wr(&mut out),
+        _ => panic!("bessel: unknown op {op}"),
+    }
+    out
+}
+
+fn dispatch_bessel(ty: &str, op: &str, operands: &[Vec<&str>]) -> Vec<String> {
+    match ty {
+        "f64" => bessel_ops::<f64>(op, operands),
+        "Dual64" => bessel_ops::<Dual64>(op, operands),
+        "Dual2_64" => bessel_ops::<Dual2_64>(op, operands),
+        "Dual3_64" => bessel_ops::<Dual3_64>(op, operands),
+        "HyperDual64" => bessel_ops::<HyperDual64>(op, operands),
+        "HyperHyperDual64" => bessel_ops::<HyperHyperDual64>(op, operands),
+        "DualSVec64_1" => bessel_ops::<DualSVec64<1>>(op, operands),
+        "DualSVec64_2" => bessel_ops::<DualSVec64<2>>(op, operands),
+        "DualSVec64_3" => bessel_ops::<DualSVec64<3>>(op, operands),
+        "Dual2SVec64_1" => bessel_ops::<Dual2SVec64<1>>(op, operands),
+        "Dual2SVec64_2" => bessel_ops::<Dual2SVec64<2>>(op, operands),
+        "Dual2SVec64_3" => bessel_ops::<Dual2SVec64<3>>(op, operands),
+        "HyperDualSVec64_1_1" => bessel_ops::<HyperDualSVec64<1, 1>>(op, operands),
+        "HyperDualSVec64_2_3" => bessel_ops::<HyperDualSVec64<2, 3>>(op, operands),
+        "HyperDualSVec64_3_2" => bessel_ops::<HyperDualSVec64<3, 2>>(op, operands),
+        "Dual_Dual64" => bessel_ops::<DD>(op, operands),
+        "Dual_Dual_Dual64" => bessel_ops::<DDD>(op, operands),
+        "Dual2_Dual64" => bessel_ops::<Dual2<Dual64, f64>>(op, operands),
+        "Dual_Dual2_64" => bessel_ops::<Dual<Dual2_64, f64>>(op, operands),
+        "Dual3_Dual64" => bessel_ops::<Dual3<Dual64, f64>>(op, operands),
+        "HyperDual_Dual64" => bessel_ops::<HyperDual<Dual64, f64>>(op, operands),
+        "Dual_HyperDual64" => bessel_ops::<Dual<HyperDual64, f64>>(op, operands),
+        "Dual2_Dual2_64" => bessel_ops::<Dual2<Dual2_64, f64>>(op, operands),
+        _ => panic!("bessel: unknown type {ty}"),
+    }
+}
+
 /// simba subset / superset conversions between dual numbers over different float widths
 fn conv_pair<A, B>(op: &str, operands: &[Vec<&str>]) -> Vec<String>
 where
@@ -934,6 +979,8 @@ fn main() {
                 dispatch_serde(head[2], &operands)
             } else if head[1] == "driver" {
                 driver(head[2], &head[3..], &operands)
+            } else if head[1] == "bessel" {
+                dispatch_bessel(head[2], head[3], &operands)
             } else if head[1] == "field" {
                 dispatch_field(head[2], head[3], &head[4..], &operands)
             } else if head[1] == "conv" && (head[2] == "f32" || head[2] == "f64") {
